@@ -150,6 +150,12 @@ pub trait IntoIterDyn<T> {
     fn nth_back(&mut self, k: usize) -> Option<T>;
     fn fold_collect(self: Box<Self>) -> Vec<T>;
     fn rfold_collect(self: Box<Self>) -> Vec<T>;
+    /// the real adaptors (they destroy what they pass over inside the iterator machinery)
+    fn count_rest(self: Box<Self>) -> usize;
+    fn last_rest(self: Box<Self>) -> Option<T>;
+    fn rev_last(self: Box<Self>) -> Option<T>;
+    fn skip_collect(self: Box<Self>, k: usize) -> Vec<T>;
+    fn step_by_collect(self: Box<Self>, k: usize) -> Vec<T>;
 }
 
 impl<const N: usize, T: Debug + Clone + 'static> IntoIterDyn<T> for IntoIter<N, T> {
@@ -182,16 +188,32 @@ impl<const N: usize, T: Debug + Clone + 'static> IntoIterDyn<T> for IntoIter<N, 
         DoubleEndedIterator::nth_back(self, k)
     }
     fn fold_collect(self: Box<Self>) -> Vec<T> {
-        (*self).take(N + 2).fold(Vec::new(), |mut v, x| {
+        // directly on the iterator, so that a `fold` override is what runs
+        (*self).fold(Vec::new(), |mut v, x| {
             v.push(x);
             v
         })
     }
     fn rfold_collect(self: Box<Self>) -> Vec<T> {
-        (*self).rev().take(N + 2).fold(Vec::new(), |mut v, x| {
+        (*self).rfold(Vec::new(), |mut v, x| {
             v.push(x);
             v
         })
+    }
+    fn count_rest(self: Box<Self>) -> usize {
+        (*self).count()
+    }
+    fn last_rest(self: Box<Self>) -> Option<T> {
+        (*self).last()
+    }
+    fn rev_last(self: Box<Self>) -> Option<T> {
+        (*self).rev().last()
+    }
+    fn skip_collect(self: Box<Self>, k: usize) -> Vec<T> {
+        (*self).skip(k).take(N + 2).collect()
+    }
+    fn step_by_collect(self: Box<Self>, k: usize) -> Vec<T> {
+        (*self).step_by(k + 1).take(N + 2).collect()
     }
 }
 
